@@ -52,3 +52,11 @@ package domutil
 //@   ensures [C04,C05] #invisible-elements-excluded implies(node.Type == 3 && !IsProbablyVisible(node), !result && len(*outputNodes) == old(len(*outputNodes)))
 //@   ensures [C07] #visible-kept implies(node.Type == 3 && IsProbablyVisible(node), result && len(*outputNodes) == old(len(*outputNodes)) + 1)
 //@   ensures [C04] #only-text-and-elements implies(node.Type != 3 && node.Type != 1, !result && len(*outputNodes) == old(len(*outputNodes)))
+
+// HasAncestor: trusted summary (two loops over a local map; not verified): with a single tag name the
+// result is the ghost predicate "some proper ancestor has that tag name".
+//@ func HasAncestor(node, ancestorTagNames)
+//@   trusted
+//@   requires node != nil
+//@   fresh_assigns maps
+//@   ensures implies(len(ancestorTagNames) == 1, result == hasAncestorTag(node, old(ancestorTagNames[0])))
